@@ -234,14 +234,117 @@ func c16RenderB(eng any, p c16Prog, entry string, real bool, boom bool) (string,
 	return buf.String(), err
 }
 
+// a component tag written in its shorthand form (<box-a>, registered by WithComponents) is the same include as its
+// long form <template include="components/BoxA.vuego">: with v-once on the tag, with content, inside loops
+func c16ShortLong(r *Run) {
+	rr := r.Rng
+	comps := map[string]string{
+		"components/BoxA.vuego":     `<div data-c="a" :data-l="link"><i v-once>a-once</i><slot>fa</slot></div>`,
+		"components/BoxB.vuego":     `<section data-c="b"><slot></slot><b v-once>b-once</b></section>`,
+		"components/ui/BoxC.vuego": `<p data-c="c">{{ link }}<slot></slot></p>`,
+	}
+	tags := map[string]string{"components/BoxA.vuego": "box-a", "components/BoxB.vuego": "box-b", "components/ui/BoxC.vuego": "ui-box-c"}
+	names := []string{"components/BoxA.vuego", "components/BoxB.vuego", "components/ui/BoxC.vuego"}
+	n := 300
+	if r.Thorough() {
+		n = 6000
+	}
+	type inc struct {
+		file, attrs, content string
+		kids                 []inc
+	}
+	var gen func(depth int) []inc
+	gen = func(depth int) []inc {
+		var out []inc
+		for i, k := 0, 1+rr.Intn(4); i < k; i++ {
+			x := inc{file: Pick(rr, names)}
+			if rr.Intn(2) == 0 {
+				x.attrs += " v-once"
+			}
+			if rr.Intn(5) == 0 {
+				x.attrs += ` v-for="q in l2"`
+			}
+			if rr.Intn(6) == 0 {
+				x.attrs += ` v-if="link"`
+			}
+			if rr.Intn(4) == 0 {
+				x.attrs += ` :title="link"`
+			}
+			if rr.Intn(3) == 0 {
+				x.content = Pick(rr, []string{"text", "<u>u</u>", `<u v-once>once-in-content</u>`})
+			}
+			if depth > 0 && rr.Intn(3) == 0 {
+				x.kids = gen(depth - 1)
+			}
+			out = append(out, x)
+		}
+		return out
+	}
+	var src func(xs []inc, short bool) string
+	src = func(xs []inc, short bool) string {
+		var sb strings.Builder
+		for _, x := range xs {
+			body := x.content + src(x.kids, short)
+			if short {
+				fmt.Fprintf(&sb, "<%s%s>%s</%s>", tags[x.file], x.attrs, body, tags[x.file])
+			} else {
+				fmt.Fprintf(&sb, `<template include="%s"%s>%s</template>`, x.file, x.attrs, body)
+			}
+		}
+		return sb.String()
+	}
+	render := func(page string, entry string) (string, error) {
+		m := fstest.MapFS{"page.vuego": &fstest.MapFile{Data: []byte(page)}}
+		for k, v := range comps {
+			m[k] = &fstest.MapFile{Data: []byte(v)}
+		}
+		data := map[string]any{"link": "P", "l2": []any{1, 2}}
+		var buf bytes.Buffer
+		var err error
+		func() {
+			defer func() {
+				if x := recover(); x != nil {
+					err = fmt.Errorf("PANIC %v", x)
+				}
+			}()
+			t := vuego.NewFS(m, vuego.WithComponents())
+			switch entry {
+			case "LoadRender":
+				err = t.New().Fill(data).Load("page.vuego").Render(context.Background(), &buf)
+			case "RenderFile":
+				err = t.New().Fill(data).RenderFile(context.Background(), &buf, "page.vuego")
+			default:
+				err = t.New().Fill(data).RenderString(context.Background(), &buf, page)
+			}
+		}()
+		return buf.String(), err
+	}
+	for c := 0; c < n; c++ {
+		xs := gen(1)
+		entry := Pick(rr, []string{"LoadRender", "RenderFile", "RenderString"})
+		pre := Pick(rr, []string{"", `<h1 v-once>head</h1>`, `<h1>head</h1>`})
+		long, short := pre+src(xs, false), pre+src(xs, true)
+		lo, lerr := render(long, entry)
+		so, serr := render(short, entry)
+		onces := strings.Count(long, "v-once")
+		r.Eval(fmt.Sprintf("shorthand:%d", c), onces >= 2, map[string]any{"includes": len(xs), "entry": entry})
+		r.Count("shorthand-entry:" + entry)
+		if fmt.Sprint(lerr) != fmt.Sprint(serr) || lo != so {
+			r.Fail("a component written as a shorthand tag renders differently from the same include written in full", map[string]string{"oracle": "shorthand-vs-long", "entry": entry},
+				map[string]any{"long_form": long, "short_form": short, "components": comps, "long_output": lo, "short_output": so, "long_error": fmt.Sprint(lerr), "short_error": fmt.Sprint(serr), "entry": entry})
+		}
+	}
+}
+
 func init() { streams["C16"] = runC16 }
 
 func runC16(r *Run) {
 	r.Imports = []string{"Model.Once"}
 	r.Rule("programs with v-once elements at top level, nested in one another, inside v-for over 2-3 items, inside components included 1..n times (also from loops and from other components), in two different components and in a layout; " +
 		"every entry point (Vue.Render, Vue.RenderFragment, Load().Render and RenderFile with and without a layout, RenderString); each program rendered twice on one engine, then once more after a render of the same page that fails at its very end; " +
-		"the expanded forest comes from rendering the same program with v-once renamed to a marker attribute; non-trivial: some marked element is instantiated >= 2 times or >= 2 marked elements exist")
+		"the expanded forest comes from rendering the same program with v-once renamed to a marker attribute; (shorthand) pages of nested component includes with v-once, v-for, v-if, bound attributes and slot content on the include itself, written once as <template include> and once as registered shorthand tags: the two must render the same bytes; non-trivial: some marked element is instantiated >= 2 times or >= 2 marked elements exist")
 	r.Assume("the keys written by the harness (file#element, prefixed by the layout link) identify source elements; the model is told nothing about the implementation's own id scheme")
+	c16ShortLong(r)
 	rr := r.Rng
 	n := 500
 	if r.Thorough() {
